@@ -1,6 +1,6 @@
 #!/bin/sh
 # writes MC_Equivariance_<mode>[_thorough].cfg (one TLC run per mode; the harness runs them concurrently)
-gen() {  # name modes NU ND NWU NWD NS WMax
+gen() {  # name modes NU ND NWU NWD NS WMax [PFirst]
 cat > "MC_Equivariance_$1.cfg" <<EOT
 SPECIFICATION Spec
 CONSTANT NU = $3
@@ -10,6 +10,7 @@ CONSTANT NWD = $6
 CONSTANT NS = $7
 CONSTANT WMax = $8
 CONSTANT Modes = {$2}
+CONSTANT PFirst = ${9:-{1, 2, 3, 4, 5\}}
 INVARIANT GroupLaws
 INVARIANT DegreesEquivariant
 INVARIANT ReachEquivariant
@@ -26,8 +27,10 @@ EOT
 for m in und dir wund wdir sign; do
   gen "$m" "\"$m\"" 4 3 3 3 3 2
 done
-gen und_thorough  '"und"'  5 4 4 3 3 2
-gen dir_thorough  '"dir"'  5 4 4 3 3 2
-gen wund_thorough '"wund"' 5 4 4 3 3 2
+gen und_thorough  '"und"'  4 4 4 3 3 2
+for k in 1 2 3 4; do
+  gen "dir_thorough_s$k"  '"dir"'  4 4 4 3 3 2 "{$k}"
+  gen "wund_thorough_s$k" '"wund"' 4 4 4 3 3 2 "{$k}"
+done
 gen wdir_thorough '"wdir"' 5 4 4 3 3 3
 gen sign_thorough '"sign"' 5 4 4 3 3 3
